@@ -152,7 +152,15 @@ def rule_flow_mono(ctx):
             odd_leaves.append((ts, v))
     ctx.add("FLOW-MONO", "only-false", not odd_leaves, site,
             "on every path of the loop body the flag keeps its value or becomes false (%d paths keep, %d clear; other: %s)" % (len(kept), len(cleared), [sym.pretty(v)[:80] for _, v in odd_leaves]))
-    bad_kept = [ts for ts in kept if not all(n in ts for n in need)]
+    def sure(ts, n):
+        # the path says n outright, or its facts entail it (`not (not Ok or ..)`)
+        if n in ts:
+            return True
+        try:
+            return leaves.entails(ts, n)
+        except OverflowError:
+            return False
+    bad_kept = [ts for ts in kept if not all(sure(ts, n) for n in need)]
     ctx.add("FLOW-MONO", "arm:status-ok", bool(kept) and not bad_kept, site,
             "the flag survives an iteration only when the prover result is Ok(report), report.status() is Ok(status) and status is exactly "
             "Status::Success(Success::Theorem); offending paths: %s" % [[str(t)[:90] for t in ts] for ts in bad_kept[:3]], construct=[str(t) for ts in kept for t in ts])
